@@ -48,22 +48,27 @@ READY = True
 GAP_CAP = 4
 
 
+# every version of a file has another page signature (its own argument name): what is remembered about a template
+# under its URI or module name - argument lists, signatures - must not survive a modification of the file
+RARGS = {"a_A": "A", "a_B": "B"}
+
+
 def content(d, u, v):
     if v == "X":
         return "${"
-    return "%s|d%d|%s|${1+1}" % (u, d, v)
+    return "<%%page args=\"a_%s='none'\"/>%s|d%d|%s|${1+1}|${a_%s}" % (v, u, d, v, v)
 
 
 def marker(d, u, v):
-    return "%s|d%d|%s|2" % (u, d, v)
+    return "%s|d%d|%s|2|%s" % (u, d, v, v)
 
 
 def put_content(u, v):
-    return "put|%s|%s|${1+1}" % (u, v)
+    return "<%%page args=\"a_%s='none'\"/>put|%s|%s|${1+1}|${a_%s}" % (v, u, v, v)
 
 
 def put_marker(u, v):
-    return "put|%s|%s|2" % (u, v)
+    return "put|%s|%s|2|%s" % (u, v, v)
 
 
 def configs(tier):
@@ -79,6 +84,9 @@ def configs(tier):
     for nd, fs, cs, md in S:
         dep = ({1: 11, 2: 7} if tier == "quick" else {1: 40, 2: 9, 3: 6})[nd]
         out.append({"mode": "S", "dirs": nd, "uris": 1, "fs_checks": fs, "size": cs, "moddir": md, "unreadable": tier != "quick", "max_depth": dep})
+    # the caller's spelling of the URI: doubled leading slash, backslash (served under the URI as given)
+    for spell, cs, md in ([("//", -1, False), ("\\", 1, False)] if tier == "quick" else [(sp_, cs, md) for sp_ in ("/", "//", "\\", "/\\") for cs in (-1, 1) for md in (False, True)]):
+        out.append({"mode": "S", "dirs": 1, "uris": 1, "fs_checks": True, "size": cs, "moddir": md, "unreadable": False, "max_depth": 7 if tier == "quick" else 12, "spell": spell})
     for nu, fs, cs, md in L:
         dep = ({2: 9, 3: 7} if tier == "quick" else {2: 12, 3: 8, 4: 6, 5: 5, 7: 4})[nu]
         out.append({"mode": "L", "dirs": 1, "uris": nu, "fs_checks": fs, "size": cs, "moddir": md, "unreadable": False, "max_depth": dep})
@@ -100,7 +108,7 @@ def groups(tier):
 
 
 def cfg_label(c):
-    return "%s dirs=%d uris=%d checks=%s size=%d moddir=%s" % (c["mode"], c["dirs"], c["uris"], c["fs_checks"], c["size"], c["moddir"])
+    return "%s dirs=%d uris=%d checks=%s size=%d moddir=%s%s" % (c["mode"], c["dirs"], c["uris"], c["fs_checks"], c["size"], c["moddir"], " spell=%r" % c["spell"] if c.get("spell") else "")
 
 
 URIS = ["u", "v", "w", "x", "y", "z", "q", "r"]
@@ -255,8 +263,13 @@ class World:
     def path(self, d, u):
         return os.path.join(self.dirs[d], u)
 
+    def sp(self, u):
+        """the URI as the caller spells it (the model is indifferent to the spelling)"""
+        return self.cfg.get("spell", "") + u
+
     def _impl_keys(self):
-        return set(dict.keys(self.lookup._collection))
+        pre = self.cfg.get("spell", "")
+        return {k[len(pre):] if pre and str(k).startswith(pre) else k for k in dict.keys(self.lookup._collection)}
 
     # ---- events
     def step(self, ev):
@@ -295,14 +308,14 @@ class World:
             _, u, v = ev
             c0 = self.constructions
             if kind == "put_string":
-                self.lookup.put_string(u, put_content(u, v))
-                obj = dict.get(self.lookup._collection, u)
+                self.lookup.put_string(self.sp(u), put_content(u, v))
+                obj = dict.get(self.lookup._collection, self.sp(u))
                 obj = getattr(obj, "value", obj) if self.cfg["size"] != -1 else obj
                 if self.constructions - c0 != 1:
                     viols.append(("put:constructions", "put_string constructs one Template", 1, self.constructions - c0))
             else:
-                obj = self.RealTemplate(put_content(u, v), uri=u, lookup=self.lookup)
-                self.lookup.put_template(u, obj)
+                obj = self.RealTemplate(put_content(u, v), uri=self.sp(u), lookup=self.lookup)
+                self.lookup.put_template(self.sp(u), obj)
             new = u not in self.cache
             self.cache[u] = {"kind": "put", "version": v, "obj": obj}
             if new:
@@ -345,9 +358,9 @@ class World:
         c0 = self.constructions
         try:
             if kind == "get":
-                res = self.lookup.get_template(u)
+                res = self.lookup.get_template(self.sp(u))
             else:
-                res = self.lookup.has_template(u)
+                res = self.lookup.has_template(self.sp(u))
             obs = ("value", res)
         except exceptions.TopLevelLookupException as e:
             obs = ("toplevel", e)
@@ -400,7 +413,7 @@ class World:
             elif a[0] in ("fresh", "stale-mod") and obs[0] == "value":
                 if kind == "has":
                     ok = obs[1] is True
-                    tobj = dict.get(self.lookup._collection, u)
+                    tobj = dict.get(self.lookup._collection, self.sp(u))
                     tobj = getattr(tobj, "value", tobj) if self.cfg["size"] != -1 else tobj
                 else:
                     ok = isinstance(obs[1], self.RealTemplate) and (e is None or obs[1] is not e.get("obj"))
@@ -471,7 +484,7 @@ class World:
             compiled_at = self.clock.now if a[0] == "fresh" else a[3]
             if a[0] == "fresh" and self.cfg["moddir"]:
                 self.moddisk[u] = {"version": v, "dir": d, "compiled": self.clock.now}
-            obj = obs[1] if kind == "get" else dict.get(self.lookup._collection, u)
+            obj = obs[1] if kind == "get" else dict.get(self.lookup._collection, self.sp(u))
             if kind == "has":
                 obj = getattr(obj, "value", obj) if self.cfg["size"] != -1 else obj
             self.cache[u] = {
@@ -494,7 +507,7 @@ class World:
         # invariant: the template renders the version the model says it holds
         if obj is not None:
             try:
-                got = obj.render()
+                got = obj.render(**RARGS)
             except BaseException as ex:  # noqa
                 got = "EXC %s" % type(ex).__name__
             if got != exp_marker:
@@ -581,12 +594,19 @@ class World:
         # use it - a failed or evicted load must leave no trace - but keeping it in the key stops the search from
         # merging "never resolved" with "resolved before, uncached again", which is where a memoised resolution hides.
         ghost = tuple(sorted((u, tuple(sorted(ds))) for u, ds in self.ghost.items())) if self.cfg["dirs"] > 1 else ()
-        return (files, tuple(cache), rec, tuple(sorted(self.lost_put)), mods, ghost)
+        # what the real lookup holds, observed from outside (part of the key, never an oracle): if an
+        # implementation leaves the lookup in another state than the model expects without a visible symptom yet,
+        # the search continues from that state instead of merging it with the one the model believes in
+        real = (
+            tuple(sorted(map(str, dict.keys(self.lookup._collection)))),
+            tuple(sorted(map(str, dict.keys(getattr(self.lookup, "_uri_cache", {}))))),
+        )
+        return (files, tuple(cache), rec, tuple(sorted(self.lost_put)), mods, ghost, real)
 
 
 def _render_of(t):
     try:
-        return t.render()
+        return t.render(**RARGS)
     except BaseException as ex:  # noqa
         return "EXC %s" % type(ex).__name__
 
